@@ -172,3 +172,48 @@ void h_vi_pipe(void)
 	__CPROVER_assert(0, "canary");
 #endif
 }
+
+
+/* ================================================================== vi_change: "c motion" (C08) */
+struct ghost_ch_in { int has_rep, in_row, in_off; } CHI;
+struct ghost_ch { int input_calls; char *in_pref, *in_post; int indents_calls; char *indents_of; } CH;
+static char t_rep[2], t_ind[2];
+static char *vi_indents(char *ln) { CH.indents_calls++; CH.indents_of = ln; return t_ind; }
+static char *vi_input(char *pref, char *post, int *row, int *off)
+{
+	CH.input_calls++; CH.in_pref = pref; CH.in_post = post;
+	if (!CHI.has_rep)
+		return 0;
+	*row = CHI.in_row; *off = CHI.in_off;
+	return t_rep;
+}
+void h_vi_change(void)
+{
+	int r1, r2, o1, o2, lnmode;
+	DY_INIT();
+	CHI.has_rep = nondet_bool(); CHI.in_row = nondet_int(); CHI.in_off = nondet_int();
+	__CPROVER_assume(1 <= CHI.in_row && CHI.in_row <= 0x100000 && 0 <= CHI.in_off && CHI.in_off <= 0x100000);
+	CH.input_calls = CH.indents_calls = 0;
+	int ret = vi_change(r1, o1, r2, o2, lnmode);
+	H_ASSERT(!DY.bad && DY.put_calls == 1 && DY.put_reg == vi_ybuf && DY.put_ln == lnmode && region_ok(DY.put_text, r1, lnmode ? 0 : o1, r2, lnmode ? -1 : o2),
+		"vi_change: the text that is about to be replaced goes into the register named (whole lines when line-wise)");
+	H_ASSERT(CH.input_calls == 1, "vi_change: insert mode is entered once");
+	if (lnmode)
+		H_ASSERT(CH.in_pref == t_ind && CH.indents_calls == 1 && CH.indents_of == t_line1 && CH.in_post == t_dup[0] && DY.dup_first[0] == '\n',
+			"vi_change: a line-wise change types into an empty line that keeps the first line's indentation");
+	else {
+		int k = r1 == r2 ? 1 : 2;
+		H_ASSERT(CH.in_pref == t_sub[k] && DY.sub[k].src == t_line1 && DY.sub[k].beg == 0 && DY.sub[k].end == o1 &&
+			CH.in_post == t_sub[k + 1] && DY.sub[k + 1].src == (r1 == r2 ? t_line1 : t_line2) && DY.sub[k + 1].beg == o2 && DY.sub[k + 1].end == -1,
+			"vi_change: a character-wise change types between the first line before the region and the last line after it");
+	}
+	if (!CHI.has_rep)
+		H_ASSERT(ret == 0 && DY.edit_calls == 0, "vi_change: an aborted insert leaves the buffer unchanged");
+	else {
+		H_ASSERT(DY.edit_calls == 1 && DY.edit_text == t_rep && DY.edit_beg == r1 && DY.edit_end == r2 + 1, "vi_change: the typed text replaces exactly the lines of the region");
+		H_ASSERT(xrow == r1 + CHI.in_row - 1 && xoff == CHI.in_off, "vi_change: the cursor ends where insert mode left it");
+	}
+#ifdef CANARY
+	__CPROVER_assert(0, "canary");
+#endif
+}
